@@ -136,6 +136,12 @@ def validate(trace_module, tracefile, workdir, timeout=1500, cfg="Trace.cfg", he
     nlines = sum(1 for _ in open(tracefile))
     if nlines == 0:
         raise ToolError("empty trace " + tracefile)
+    if parallel != 0 and nlines > 300000:
+        # very long traces of stateless trace specifications are cut into pieces of about 150 000 lines
+        # (pass parallel=0 for a stateful specification, which must see the whole trace)
+        parallel = max(parallel, (nlines + 149999) // 150000)
+    if parallel == 0:
+        parallel = 1
     if parallel > 1 and nlines >= 4 * parallel:
         import concurrent.futures
         lines = open(tracefile).readlines()
@@ -152,8 +158,8 @@ def validate(trace_module, tracefile, workdir, timeout=1500, cfg="Trace.cfg", he
                 f.writelines(part)
             chunks.append((d, path))
         t0 = time.time()
-        with concurrent.futures.ThreadPoolExecutor(max_workers=parallel) as ex:
-            results = list(ex.map(lambda c: validate(trace_module, c[1], c[0], timeout=timeout, cfg=cfg, heap="2g"), chunks))
+        with concurrent.futures.ThreadPoolExecutor(max_workers=min(parallel, 8)) as ex:
+            results = list(ex.map(lambda c: validate(trace_module, c[1], c[0], timeout=timeout, cfg=cfg, heap="3g", parallel=0), chunks))
         rejects = {}
         for _, r in results:
             rejects.update(r)
